@@ -6,19 +6,19 @@ Open Scope Z_scope.
 
 (* ================= C01 ================= *)
 
-Theorem models_thm : forall N A limit evs s, run N A limit evs = Some s ->
+Theorem models_thm : forall chk N A limit evs s, run chk N A limit evs = Some s ->
   forall m, In m (sols s) -> models (asg_of m) N /\ agrees (asg_of m) A.
 Proof.
-  intros N A limit evs s Hrun m Hin.
-  destruct (inv_sols N A s (run_Inv N A limit evs s Hrun) m Hin) as [_ [_ [H1 H2]]]. split; assumption.
+  intros chk N A limit evs s Hrun m Hin.
+  destruct (inv_sols chk N A s (run_Inv chk N A limit evs s Hrun) m Hin) as [_ [_ [H1 H2]]]. split; assumption.
 Qed.
 
 (* every recorded model assigns exactly the variables 1..max_var N, in this order *)
-Theorem total_thm : forall N A limit evs s, run N A limit evs = Some s ->
+Theorem total_thm : forall chk N A limit evs s, run chk N A limit evs = Some s ->
   forall m, In m (sols s) -> map Z.abs m = zseq 1 (Z.to_nat (max_var N)).
 Proof.
-  intros N A limit evs s Hrun m Hin.
-  destruct (inv_sols N A s (run_Inv N A limit evs s Hrun) m Hin) as [Hwf _].
+  intros chk N A limit evs s Hrun m Hin.
+  destruct (inv_sols chk N A s (run_Inv chk N A limit evs s Hrun) m Hin) as [Hwf _].
   apply zlist_eqb_eq. exact Hwf.
 Qed.
 
@@ -48,11 +48,11 @@ Proof.
   - apply (IH Hr); assumption.
 Qed.
 
-Theorem distinct_thm : forall N A limit evs s, run N A limit evs = Some s ->
+Theorem distinct_thm : forall chk N A limit evs s, run chk N A limit evs = Some s ->
   NoDup (sols s)
   /\ forall m m', In m (sols s) -> In m' (sols s) -> m <> m' -> exists v, asg_of m v <> asg_of m' v.
 Proof.
-  intros N A limit evs s Hrun. pose proof (inv_distinct N A s (run_Inv N A limit evs s Hrun)) as Hd.
+  intros chk N A limit evs s Hrun. pose proof (inv_distinct chk N A s (run_Inv chk N A limit evs s Hrun)) as Hd.
   split; [apply distinct_NoDup; exact Hd | apply distinct_pairwise; exact Hd].
 Qed.
 
@@ -70,14 +70,14 @@ Proof.
 Qed.
 
 (* the Result handed back is a function of the accepted trace: which model, objective, solutions *)
-Theorem result_is_trace_thm : forall N A limit evs s r, run N A limit evs = Some s ->
+Theorem result_is_trace_thm : forall chk N A limit evs s r, run chk N A limit evs = Some s ->
   result_of limit s = Some r ->
   (forall m, r_solution r = Some m -> In m (sols s) /\ r_objective r = Z.of_nat (length m))
   /\ (r_solution r = None -> sols s = [] /\ r_objective r = 0 /\ r_solutions r = None)
   /\ (forall l, r_solutions r = Some l -> l = rev (sols s) /\ r_solution r <> None).
 Proof.
-  intros N A limit evs s r Hrun Hres.
-  pose proof (inv_verdict N A s (run_Inv N A limit evs s Hrun)) as Hv.
+  intros chk N A limit evs s r Hrun Hres.
+  pose proof (inv_verdict chk N A s (run_Inv chk N A limit evs s Hrun)) as Hv.
   unfold result_of in Hres. destruct (verdict s) as [rt|]; [|discriminate].
   injection Hres as Hr.
   destruct rt; destruct (sols s) as [|m0 rest] eqn:Es; subst r; unfold with_solutions; simpl;
@@ -113,19 +113,19 @@ Proof.
 Qed.
 
 (* hence: whatever the code hands back has been checked *)
-Theorem result_sound_thm : forall N A limit evs s r, run N A limit evs = Some s ->
+Theorem result_sound_thm : forall chk N A limit evs s r, run chk N A limit evs = Some s ->
   result_of limit s = Some r ->
   (forall m, r_solution r = Some m -> models (asg_of m) N /\ agrees (asg_of m) A)
   /\ (forall l, r_solutions r = Some l ->
         NoDup l /\ forall m, In m l -> models (asg_of m) N /\ agrees (asg_of m) A).
 Proof.
-  intros N A limit evs s r Hrun Hres.
-  destruct (result_is_trace_thm N A limit evs s r Hrun Hres) as [H1 [_ H3]].
+  intros chk N A limit evs s r Hrun Hres.
+  destruct (result_is_trace_thm chk N A limit evs s r Hrun Hres) as [H1 [_ H3]].
   split.
-  - intros m Hm. destruct (H1 m Hm) as [Hin _]. exact (models_thm N A limit evs s Hrun m Hin).
+  - intros m Hm. destruct (H1 m Hm) as [Hin _]. exact (models_thm chk N A limit evs s Hrun m Hin).
   - intros l Hl. destruct (H3 l Hl) as [Heq _]. subst l. split.
-    + apply NoDup_rev. exact (proj1 (distinct_thm N A limit evs s Hrun)).
-    + intros m Hin. apply in_rev in Hin. exact (models_thm N A limit evs s Hrun m Hin).
+    + apply NoDup_rev. exact (proj1 (distinct_thm chk N A limit evs s Hrun)).
+    + intros m Hin. apply in_rev in Hin. exact (models_thm chk N A limit evs s Hrun m Hin).
 Qed.
 
 (* ================= C02 ================= *)
@@ -135,10 +135,10 @@ Proof.
   intros F G c Hinc H m Hm. apply H. intros x Hx. apply Hm. apply Hinc. exact Hx.
 Qed.
 
-Theorem learned_entailed_sofar_thm : forall N A limit evs s, run N A limit evs = Some s ->
+Theorem learned_entailed_sofar_thm : forall N A limit evs s, run true N A limit evs = Some s ->
   db_entailed (base N A (pures s)) (db s).
 Proof.
-  intros N A limit evs s Hrun. exact (inv_db N A s (run_Inv N A limit evs s Hrun)).
+  intros N A limit evs s Hrun. exact (inv_db true N A s (run_Inv true N A limit evs s Hrun) eq_refl).
 Qed.
 
 Lemma db_entailed_In : forall B d c, db_entailed B d -> In (c, false) d -> entails (B ++ blockings d) c.
@@ -155,7 +155,7 @@ Qed.
 
 (* every accepted non-blocking clause is entailed by N, the assumption units, the pure units and
    the blocking clauses *)
-Theorem learned_entailed_thm : forall N A limit evs s, run N A limit evs = Some s ->
+Theorem learned_entailed_thm : forall N A limit evs s, run true N A limit evs = Some s ->
   forall c, In (c, false) (db s) ->
   entails (units A ++ units (pures s) ++ N ++ blockings (db s)) c.
 Proof.
@@ -164,14 +164,14 @@ Proof.
   unfold base in H. rewrite <- !app_assoc in H. exact H.
 Qed.
 
-Theorem unsat_sound_thm : forall N A limit evs s, run N A limit evs = Some s ->
+Theorem unsat_sound_thm : forall N A limit evs s, run true N A limit evs = Some s ->
   verdict s = Some RInfeasible -> unsat_under N A.
 Proof.
   intros N A limit evs s Hrun Hv.
-  pose proof (inv_verdict N A s (run_Inv N A limit evs s Hrun)) as H. rewrite Hv in H. exact (proj1 H).
+  pose proof (inv_verdict true N A s (run_Inv true N A limit evs s Hrun)) as H. rewrite Hv in H. exact (proj1 H eq_refl).
 Qed.
 
-Theorem unsat_result_thm : forall N A limit evs s r, run N A limit evs = Some s ->
+Theorem unsat_result_thm : forall N A limit evs s r, run true N A limit evs = Some s ->
   result_of limit s = Some r -> r_status r = INFEASIBLE -> unsat_under N A /\ r_solution r = None.
 Proof.
   intros N A limit evs s r Hrun Hres Hst.
@@ -181,14 +181,14 @@ Proof.
     (split; [exact (unsat_sound_thm N A limit evs s Hrun Ev) | reflexivity]).
 Qed.
 
-Theorem no_false_model_thm : forall N A limit evs s, run N A limit evs = Some s ->
+Theorem no_false_model_thm : forall chk N A limit evs s, run chk N A limit evs = Some s ->
   unsat_under N A ->
   sols s = [] /\ forall r, result_of limit s = Some r -> r_solution r = None /\ r_solutions r = None.
 Proof.
-  intros N A limit evs s Hrun Hunsat.
+  intros chk N A limit evs s Hrun Hunsat.
   assert (sols s = []) as Hs.
   { destruct (sols s) as [|m rest] eqn:Es; [reflexivity|]. exfalso. apply Hunsat.
-    exists (asg_of m). apply (models_thm N A limit evs s Hrun). rewrite Es. left. reflexivity. }
+    exists (asg_of m). apply (models_thm chk N A limit evs s Hrun). rewrite Es. left. reflexivity. }
   split; [exact Hs|]. intros r Hres. unfold result_of in Hres. rewrite Hs in Hres.
   destruct (verdict s) as [rt|]; [|discriminate]. injection Hres as Hr. subst r.
   destruct rt; split; reflexivity.
@@ -204,29 +204,29 @@ Qed.
 
 (* enumeration finished by the "level-0 conflict / no open literal in a blocking clause" route:
    every model of N /\ A extends one of the recorded models (pure literals are off when enumerating) *)
-Theorem enum_complete_thm : forall N A limit evs s, run N A limit evs = Some s ->
+Theorem enum_complete_thm : forall N A limit evs s, run true N A limit evs = Some s ->
   verdict s = Some RExhausted -> pures s = [] ->
   forall a, models a N -> agrees a A ->
   exists m, In m (sols s) /\ forall l, In l m -> lit_true a l = true.
 Proof.
   intros N A limit evs s Hrun Hv Hp a HN HA.
-  pose proof (run_Inv N A limit evs s Hrun) as HI.
-  pose proof (inv_verdict N A s HI) as H. rewrite Hv in H. destruct H as [_ [Hnp Hno]].
+  pose proof (run_Inv true N A limit evs s Hrun) as HI.
+  pose proof (inv_verdict true N A s HI) as H. rewrite Hv in H. destruct H as [_ [Hnp Hno]]. specialize (Hno eq_refl).
   destruct (existsb (fun m => forallb (lit_true a) m) (sols s)) eqn:Eex.
   - apply existsb_exists in Eex. destruct Eex as [m [Hin Hall]]. exists m. split; [exact Hin|].
     rewrite forallb_forall in Hall. exact Hall.
   - exfalso. apply (Hno a). apply premises_models.
-    + exact (inv_db N A s HI).
+    + exact (inv_db true N A s HI eq_refl).
     + rewrite Hp. unfold base. apply models_app. split; [apply models_units; exact HA|].
       apply models_app. split; [apply models_nil | exact HN].
-    + intros c Hc. destruct (inv_block_from N A s HI c Hc) as [m [Hin Heq]]. subst c.
+    + intros c Hc. destruct (inv_block_from true N A s HI c Hc) as [m [Hin Heq]]. subst c.
       assert (forallb (lit_true a) m = false) as Hf.
       { destruct (forallb (lit_true a) m) eqn:E; [|reflexivity].
         assert (existsb (fun m => forallb (lit_true a) m) (sols s) = true) as Hex
           by (apply existsb_exists; exists m; split; assumption).
         congruence. }
       destruct (forallb_false_ex _ _ Hf) as [l [Hl Hlf]].
-      destruct (inv_sols N A s HI m Hin) as [_ [Hcons _]].
+      destruct (inv_sols true N A s HI m Hin) as [_ [Hcons _]].
       unfold clause_true. apply existsb_exists. exists (- l). split; [apply in_map; exact Hl|].
       rewrite (lit_true_opp a l (consistent_nonzero m l Hcons Hl)). rewrite Hlf. reflexivity.
 Qed.
